@@ -19,7 +19,7 @@ use {
     failspot::failspot,
     nix::{
         errno::Errno,
-        sys::{ptrace, signal, wait},
+        sys::{ptrace, signal},
     },
     procfs_core::{
         process::{MMPermissions, ProcState, Stat},
@@ -259,60 +259,76 @@ impl PtraceDumper {
         #[cfg(mdw_verif)]
         crate::verif_hooks::emit("attach:ok", &[("tid", child as i64)], None);
         loop {
-            match wait::waitpid(pid, Some(wait::WaitPidFlag::__WALL)) {
-                Ok(status) => {
-                    #[cfg(mdw_verif)]
-                    crate::verif_hooks::emit(
-                        "wait:status",
-                        &[
-                            ("tid", child as i64),
-                            (
-                                "stopsig",
-                                match status {
-                                    wait::WaitStatus::Stopped(_, s) => s as i64,
-                                    _ => -1,
-                                },
-                            ),
-                        ],
-                        None,
-                    );
-                    let wait::WaitStatus::Stopped(_, status) = status else {
-                        return Err(DumperError::WaitPidError(
-                            child,
-                            nix::errno::Errno::UnknownErrno,
-                        ));
-                    };
-
-                    // Any signal will stop the thread, make sure it is SIGSTOP. Otherwise, this
-                    // signal will be delivered after PTRACE_DETACH, and the thread will enter
-                    // the "T (stopped)" state.
-                    if status == nix::sys::signal::SIGSTOP {
-                        break;
-                    }
-
-                    // Signals other than SIGSTOP that are received need to be reinjected,
-                    // or they will otherwise get lost.
-                    #[cfg(mdw_verif)]
-                    crate::verif_hooks::emit(
-                        "cont:before",
-                        &[("tid", child as i64), ("sig", status as i64)],
-                        None,
-                    );
-                    if let Err(err) = ptrace::cont(pid, status) {
-                        return Err(DumperError::WaitPidError(child, err));
-                    }
+            // The raw wait status is used because nix cannot represent a stop that was
+            // caused by a realtime signal (its waitpid fails with EINVAL), and such a signal
+            // has to be reinjected like any other.
+            let mut status: libc::c_int = 0;
+            // SAFETY: plain syscall with a valid out-pointer
+            let res = unsafe { libc::waitpid(child, &mut status, libc::__WALL) };
+            if res < 0 {
+                let e = Errno::last();
+                if e == Errno::EINTR {
+                    continue;
                 }
-                Err(Errno::EINTR) => continue,
-                Err(e) => {
-                    #[cfg(mdw_verif)]
-                    crate::verif_hooks::emit(
-                        "wait:err",
-                        &[("tid", child as i64), ("errno", e as i64)],
-                        None,
-                    );
-                    ptrace_detach(child)?;
-                    return Err(DumperError::WaitPidError(child, e));
-                }
+                #[cfg(mdw_verif)]
+                crate::verif_hooks::emit(
+                    "wait:err",
+                    &[("tid", child as i64), ("errno", e as i64)],
+                    None,
+                );
+                ptrace_detach(child)?;
+                return Err(DumperError::WaitPidError(child, e));
+            }
+            #[cfg(mdw_verif)]
+            crate::verif_hooks::emit(
+                "wait:status",
+                &[
+                    ("tid", child as i64),
+                    (
+                        "stopsig",
+                        if libc::WIFSTOPPED(status) {
+                            libc::WSTOPSIG(status) as i64
+                        } else {
+                            -1
+                        },
+                    ),
+                ],
+                None,
+            );
+            if !libc::WIFSTOPPED(status) {
+                return Err(DumperError::WaitPidError(
+                    child,
+                    nix::errno::Errno::UnknownErrno,
+                ));
+            }
+            let stop_signal = libc::WSTOPSIG(status);
+
+            // Any signal will stop the thread, make sure it is SIGSTOP. Otherwise, this
+            // signal will be delivered after PTRACE_DETACH, and the thread will enter
+            // the "T (stopped)" state.
+            if stop_signal == libc::SIGSTOP {
+                break;
+            }
+
+            // Signals other than SIGSTOP that are received need to be reinjected,
+            // or they will otherwise get lost.
+            #[cfg(mdw_verif)]
+            crate::verif_hooks::emit(
+                "cont:before",
+                &[("tid", child as i64), ("sig", stop_signal as i64)],
+                None,
+            );
+            // SAFETY: plain syscall; the signal number is passed in the data argument
+            let res = unsafe {
+                libc::ptrace(
+                    libc::PTRACE_CONT,
+                    child,
+                    std::ptr::null_mut::<libc::c_void>(),
+                    stop_signal as libc::c_long,
+                )
+            };
+            if res < 0 {
+                return Err(DumperError::WaitPidError(child, Errno::last()));
             }
         }
         #[cfg(any(target_arch = "x86", target_arch = "x86_64"))]
